@@ -3,6 +3,7 @@
    tx <chain> <txspec>            -> "hash <term>"
    block <key=value ...>          -> "txc <term>" "evc <term>" "rcc <term>" "sdh <term>" "sdl <hex>" "cc <hex>"
                                      "gph <term>" "bh <term>|none"
+   block07 <chain> <key=value ...> -> "bh07 <term>"  (pre-0.7 hash format of early mainnet / goerli blocks)
    state <pre|post> <block> | ... -> per block "root <term>" (C01's state model: commitment after each diff)
    every reply ends with "end".
    txspec (fields separated by '|'):
@@ -155,6 +156,8 @@ let () =
         print_endline ("cc " ^ hex_of_z (concat_counts h.h_tx_count h.h_event_count (sd_length b.b_diff) h.h_blob));
         print_endline ("gph " ^ show_term (gas_prices_hash h));
         print_endline ("bh " ^ (match block_hash b with Some t -> show_term t | None -> "none"))
+    | "block07" :: chain :: toks ->
+        print_endline ("bh07 " ^ show_term (block_hash_pre07 (z_of_hex chain) (parse_block toks)))
     | "state" :: ver :: rest ->
         let blocks = List.map words (String.split_on_char '|' (String.concat " " rest)) in
         let ds = List.map parse_state_block blocks in
